@@ -5,7 +5,7 @@
                                                     (f64: integer-valued data, answered by the integer model)
     t <name> <shape> <values>                       Tensor::from                  → ok | panic(explicit)
     v <name> <src> access|transpose|reverse|rename <names>
-    v <name> <src> range <start:len,…>              view over a tensor/view       → ok shape=<shape> | none
+    v <name> <src> range|mask <start:len,…>         view over a tensor/view       → ok shape=<shape> | none
     m <name> <rows> <cols> <values>                 Matrix::from_flat_row_major   → ok | panic(explicit)
     w <name> <src> range <start:len> <start:len>    MatrixRange over a matrix/view → ok size=RxC | none
     w <name> <src> reverse <0|1><0|1>               MatrixReverse
@@ -17,6 +17,7 @@
     k <name> chain <srcs> <dim> via=<arity>         TensorChain
     elen <A> via=…                                  euclidean_length of a vector Tensor / Matrix (fp only) → value=… | panic(k)
     fdeg <op> …                                     f64 degenerate-data oracle (harness side only) → agree
+    ibv <type> <op> …                               integer boundary-value oracle (harness side only) → agree
     neg <A> via=<form>                              matrices only
     dot <A> <B> via=<form>                          scalar_product (1-D tensors)   → value=… | panic(k)
 
@@ -142,6 +143,7 @@ def stepEnv (e : Env α) (toks : List String) : Env α × String :=
         | "reverse" => sv.reverse (parseNames argS)
         | "rename" => sv.rename (parseNames argS)
         | "range" => (parsePairs argS).bind sv.range
+        | "mask" => (parsePairs argS).bind sv.mask
         | _ => none
       -- the same adaptor in C02's model, when the source has a `View`
       let w : Option (View String α) :=
@@ -155,6 +157,8 @@ def stepEnv (e : Env α) (toks : List String) : Env α × String :=
           | "rename" => View.mkRename sw (parseNames argS)
           | "range" => (parsePairs argS).bind fun rs =>
               View.mkRangeAll sw (rs.map fun (st, len) => some ⟨st, len⟩)
+          | "mask" => (parsePairs argS).bind fun ms =>
+              View.mkMaskAll sw (ms.map fun (st, len) => some ⟨st, len⟩)
           | _ => none
       match r with
       | some v =>
@@ -254,6 +258,10 @@ def step (s : State) (toks : List String) : State × String :=
   -- the tensor API, the matrix API and a direct left fold bit for bit and says `agree`; floats are
   -- never compared with this model (its statement about them is the exact-arithmetic theorems)
   | "fdeg" :: _ => (s, "agree")
+  -- integer boundary values (MIN … MAX of i8 / i32 / i64, a saturating user type): the harness
+  -- compares every API with the element type's own operator applied cell by cell (value or the
+  -- same kind of panic) and says `agree`; the model's integers are unbounded
+  | "ibv" :: _ => (s, "agree")
   | ["@", "fp"] => (.fp {}, "ok")
   | ["@", "rat"] => (.rat {}, "ok")
   | ["@", "i64"] => (.int {}, "ok")
